@@ -342,6 +342,31 @@ def gen_parse_cases(rng, tier):
         for ptag in ("defIndiMessagePart", "indiMessagePart", "oneFoo", "defVector", "message", "setTextVector"):
             e = copy.deepcopy(good); e["children"] = [{"tag": ptag, "attrs": [("name", "e")], "text": "v"}]
             yield {"op": "fromxml", "elem": e}
+    # number syntax: every string over the number alphabet up to a bounded length, and every
+    # single-character edit of valid numbers, as oneNumber / defNumber text
+    alphabet = "-+05.:; "
+    maxlen = 5 if tier == "thorough" else 4
+    strings = []
+    for n in range(1, maxlen + 1):
+        strings.extend("".join(t) for t in itertools.product(alphabet, repeat=n))
+    valid = ["12", "-1.5", "12.", ".5", "+3", "1:30", "1;30.5", "1 30 00", "-1:30:00.5", "0:05", "10:00:59.99"]
+    edits = set()
+    for v in valid:
+        for i in range(len(v) + 1):
+            for ch in alphabet + "eE_٣":
+                edits.add(v[:i] + ch + v[i:])
+                if i < len(v):
+                    edits.add(v[:i] + ch + v[i + 1:])
+            if i < len(v):
+                edits.add(v[:i] + v[i + 1:])
+                edits.add(v[:i] + v[i] + v[i:])
+    strings.extend(sorted(edits))
+    strings.extend(v + tail for v in valid for tail in ("\n", "\n\n", " ", "\t"))
+    for k, text in enumerate(strings):
+        ptag, msgtag = ("oneNumber", "newNumberVector") if k % 2 == 0 else ("defNumber", "defNumberVector")
+        good = elem_of_recipe(msg_recipe(msgtag, (), [part_recipe(ptag, "e1")]))
+        good["children"][0]["text"] = text
+        yield {"op": "fromxml", "elem": good}
     for tag in ("indiMessage", "defVector", "setVector", "newVector", "defWritableVector", "foo", "", "Message", "oneText", "defText", "newLightVector"):
         yield {"op": "fromxml", "elem": {"tag": tag, "attrs": [("device", "D"), ("name", "P"), ("state", "Ok"), ("perm", "rw")], "text": "", "children": []}}
     # random XML through the real parser
